@@ -1,6 +1,7 @@
 import PB.Model.Container
 import PB.Spec.ByteQueue
 import PBProofs.Lemmas.Varint
+import PBProofs.Lemmas.Base64
 /- Refinement lemmas: container (compartments + offset) ⟶ byte queue. -/
 namespace PB.Container
 open PB PB.Varint
@@ -409,7 +410,7 @@ theorem compileData_spec (c : C) (h : Inv c) :
 
 theorem getNextN_spec (unpack : Bytes → Except PB.Varint.Err (Nat × Nat)) (k : Int) (c : C) (h : Inv c) :
     Inv (getNextN unpack k c).1 ∧ abs (getNextN unpack k c).1 = (PB.ByteQueue.getNextN unpack k (abs c)).1 ∧
-    (match (getNextN unpack k c).2 with | .ok v => Except.ok v | .error (.varint e) => .error e | .error .notEnough => .error .nodata)
+    (match (getNextN unpack k c).2 with | .ok v => Except.ok v | .error (.varint e) => .error e | .error _ => .error .nodata)
       = (PB.ByteQueue.getNextN unpack k (abs c)).2 := by
   unfold getNextN PB.ByteQueue.getNextN
   rw [peek_eq]
@@ -493,6 +494,26 @@ theorem getNextBlockAsContainer_spec (c : C) (h : Inv c) :
       rw [e]
       simp only [Int.toNat_natCast] at a ⊢
       exact ⟨zi, by simp [R, outCont, PB.ByteQueue.outBlock, za, sa, bytes_eq_abs, a]⟩
+
+theorem wtaLoop_spec : ∀ (bs : List Bytes) (budget : Nat),
+    wtaLoop budget bs = (bs.flatten.take budget, decide (bs.flatten.length ≤ budget)) := by
+  intro bs
+  induction bs with
+  | nil => intro budget; simp [wtaLoop]
+  | cons b rest ih =>
+    intro budget
+    simp only [wtaLoop, List.flatten_cons, List.length_append]
+    generalize hL : rest.flatten.length = L at *
+    by_cases h : budget < b.length
+    · have h2 : ¬ (b.length + L ≤ budget) := by omega
+      rw [if_pos h, List.take_append_of_le_length (Nat.le_of_lt h), decide_eq_false h2]
+    · have h3 : b.length ≤ budget := by omega
+      rw [if_neg h, ih, List.take_append, List.take_of_length_le h3]
+      have : decide (L ≤ budget - b.length) = decide (b.length + L ≤ budget) := by
+        by_cases hh : L ≤ budget - b.length
+        · rw [decide_eq_true hh, decide_eq_true (by omega)]
+        · rw [decide_eq_false hh, decide_eq_false (by omega)]
+      simp only [this]
 
 theorem step_refines (c : C) (h : Inv c) (op : Op) :
     Inv (step c op).1 ∧ R (step c op) = PB.ByteQueue.step (abs c) op := by
@@ -584,5 +605,14 @@ theorem step_refines (c : C) (h : Inv c) (op : Op) :
   | getNextN64 => exact getNextN_step unpack64 10 c h
   | holdsData => exact ⟨h, by simp [R, step, PB.ByteQueue.step, holdsData_eq]⟩
   | length => exact ⟨h, by simp [R, step, PB.ByteQueue.step, length_eq]⟩
+  | marshalJSON =>
+    obtain ⟨a, b, o⟩ := compileData_spec c h
+    exact ⟨a, by simp [R, step, PB.ByteQueue.step, marshalJSON, b, o]⟩
+  | unmarshalJSON d =>
+    cases d with
+    | none => exact ⟨h, by simp [R, step, PB.ByteQueue.step, unmarshalJSON, Err.str]⟩
+    | some raw => exact ⟨by simp [step, unmarshalJSON, Inv], by simp [R, step, PB.ByteQueue.step, unmarshalJSON, abs]⟩
+  | writeAllTo budget =>
+    exact ⟨h, by simp [R, step, PB.ByteQueue.step, writeAllTo, wtaLoop_spec, abs]⟩
 
 end PB.Container
